@@ -1,0 +1,9 @@
+//go:build !verif
+
+package builtins
+
+// Verification hooks. They are empty (and inlined away) unless the package is
+// built with -tags verif; see verif_on.go.
+
+func verifLock(mu any, phase int)                   {}
+func verifAccess(obj any, field string, write bool) {}
